@@ -122,32 +122,35 @@ theorem acc_core (w p : Int) (X ε E : ℝ) (h1 : -102943 ≤ w) (h2 : w ≤ 102
     rw [← hX]; gcongr
   linarith
 
-theorem C09_sin_acc (v : Int) (h1 : -411774 ≤ v) (h2 : v ≤ 411774) :
+/-- accuracy of `sin v` against the sine of ANY real angle θ within `R` of `v/65536` (R = 0 for C09, the
+    truncation error of the degree conversion for C20) -/
+theorem sin_acc_at (v : Int) (θ R E : ℝ) (h1 : -520000 ≤ v) (h2 : v ≤ 520000)
+    (hθ : |θ - (v : ℝ) / 65536| ≤ R) (hE1 : 3 * (636 / 100000000) + R ≤ E) (hE2 : E ≤ 4 / 65536) :
     ∃ s : Int, (sin v ⇓ s) ∧
-      |(s : ℝ) / 65536 - Real.sin ((v : ℝ) / 65536)| ≤ 4 / 65536 + |Real.arcsin (Real.sin ((v : ℝ) / 65536))| ^ 9 / 362880 := by
-  obtain ⟨w, m, hs, hw1, hw2, hm1, hm2, hrel⟩ := sin_reduce_small v (by omega) (by omega)
+      |(s : ℝ) / 65536 - Real.sin θ| ≤ (11 / 5) / 65536 + E + |Real.arcsin (Real.sin θ)| ^ 9 / 362880 := by
+  obtain ⟨w, m, hs, hw1, hw2, hm1, hm2, hrel⟩ := sin_reduce_small v h1 h2
   obtain ⟨p, hp, _, _, hacc⟩ := sinPoly_acc w hw1 hw2
   refine ⟨p, by rw [hs, hp], ?_⟩
-  obtain ⟨ε, hε, hsin⟩ := sin_shift v w m 0 hrel
-  rw [add_zero] at hsin
+  obtain ⟨ε, hε, hsin⟩ := sin_shift v w m (θ - (v : ℝ) / 65536) hrel
+  have e : (v : ℝ) / 65536 + (θ - (v : ℝ) / 65536) = θ := by ring
+  rw [e] at hsin
   have hmabs : |(m : ℝ)| ≤ 3 := by
     rw [abs_le]; constructor
     · have : ((-3 : ℤ) : ℝ) ≤ (m : ℝ) := by exact_mod_cast hm1
       simpa using this
     · exact_mod_cast hm2
   have hd := delta0_bounds
-  have hε' : |ε| ≤ (156 / 100) / 65536 := by
+  have hε' : |ε| ≤ E := by
     have : |(m : ℝ)| * (Real.pi - 205887 / 65536) ≤ 3 * (636 / 100000000) := by
       apply mul_le_mul hmabs (le_of_lt hd.2) (le_of_lt hd.1) (by norm_num)
-    simp only [abs_zero, add_zero] at hε
-    calc |ε| ≤ 3 * (636 / 100000000) := le_trans hε this
-      _ ≤ (156 / 100) / 65536 := by norm_num
-  have := acc_core w p _ ε ((156 / 100) / 65536) hw1 hw2 hsin hε' (by norm_num) hacc
-  linarith
+    linarith
+  exact acc_core w p _ ε E hw1 hw2 hsin hε' hE2 hacc
 
-theorem C09_cos_acc (v : Int) (h1 : -411774 ≤ v) (h2 : v ≤ 411774) :
+/-- the same for `cos v` -/
+theorem cos_acc_at (v : Int) (θ R E : ℝ) (h1 : -411774 ≤ v) (h2 : v ≤ 411774)
+    (hθ : |θ - (v : ℝ) / 65536| ≤ R) (hE1 : 3 * (636 / 100000000) + 45 / 10000000 + R ≤ E) (hE2 : E ≤ 4 / 65536) :
     ∃ c : Int, (cos v ⇓ c) ∧
-      |(c : ℝ) / 65536 - Real.cos ((v : ℝ) / 65536)| ≤ 4 / 65536 + |Real.arcsin (Real.cos ((v : ℝ) / 65536))| ^ 9 / 362880 := by
+      |(c : ℝ) / 65536 - Real.cos θ| ≤ (11 / 5) / 65536 + E + |Real.arcsin (Real.cos θ)| ^ 9 / 362880 := by
   have hadd : add fixpidiv2 v = .ok (v + 102944) := by
     rw [add_closed fixpidiv2 v (by unfold fin fixpidiv2 lim_lowest lim_max; omega) (by unfold fin lim_lowest lim_max; omega)]
     unfold fixpidiv2 lim_max lim_lowest
@@ -155,31 +158,32 @@ theorem C09_cos_acc (v : Int) (h1 : -411774 ≤ v) (h2 : v ≤ 411774) :
     have c2 : ¬ (102944 + v < -9223372036854775806) := by omega
     rw [if_neg c1, if_neg c2]
     apply congrArg Except.ok; omega
-  obtain ⟨w, m, hs, hw1, hw2, hm1, hm2, hrel⟩ := sin_reduce_small (v + 102944) (by omega) (by omega)
-  obtain ⟨p, hp, _, _, hacc⟩ := sinPoly_acc w hw1 hw2
-  refine ⟨p, by unfold cos; rw [hadd]; simp only [bind, Except.bind]; rw [hs, hp], ?_⟩
-  -- cos x = sin (x + π/2) = sin ((v+102944)/65536 + ρ), ρ = π/2 - 102944/65536
-  obtain ⟨ε, hε, hsin⟩ := sin_shift (v + 102944) w m (Real.pi / 2 - 102944 / 65536) hrel
-  have hcos : Real.cos ((v : ℝ) / 65536) = Real.sin ((w : ℝ) / 65536 + ε) := by
-    rw [← hsin, ← Real.sin_add_pi_div_two]
-    congr 1
-    push_cast; ring
-  have hmabs : |(m : ℝ)| ≤ 3 := by
-    rw [abs_le]; constructor
-    · have : ((-3 : ℤ) : ℝ) ≤ (m : ℝ) := by exact_mod_cast hm1
-      simpa using this
-    · exact_mod_cast hm2
-  have hd := delta0_bounds
   have hd1 := delta1_bounds
-  have hρ : |Real.pi / 2 - 102944 / 65536| ≤ 45 / 10000000 := by
-    rw [abs_le]; constructor <;> linarith [hd1.1, hd1.2]
-  have hε' : |ε| ≤ (156 / 100) / 65536 := by
-    have : |(m : ℝ)| * (Real.pi - 205887 / 65536) ≤ 3 * (636 / 100000000) := by
-      apply mul_le_mul hmabs (le_of_lt hd.2) (le_of_lt hd.1) (by norm_num)
-    calc |ε| ≤ 3 * (636 / 100000000) + 45 / 10000000 := le_trans hε (add_le_add this hρ)
-      _ ≤ (156 / 100) / 65536 := by norm_num
-  have := acc_core w p _ ε ((156 / 100) / 65536) hw1 hw2 hcos hε' (by norm_num) hacc
-  linarith
+  -- cos θ = sin (θ + π/2), and θ + π/2 is within R + δ1 of (v + 102944)/65536
+  have hθ' : |(θ + Real.pi / 2) - ((v + 102944 : ℤ) : ℝ) / 65536| ≤ R + 45 / 10000000 := by
+    have e : (θ + Real.pi / 2) - ((v + 102944 : ℤ) : ℝ) / 65536 = (θ - (v : ℝ) / 65536) + (Real.pi / 2 - 102944 / 65536) := by
+      push_cast; ring
+    rw [e]
+    have hρ : |Real.pi / 2 - 102944 / 65536| ≤ 45 / 10000000 := by
+      rw [abs_le]; constructor <;> linarith [hd1.1, hd1.2]
+    exact le_trans (abs_add_le _ _) (add_le_add hθ hρ)
+  obtain ⟨s, hs, hacc⟩ := sin_acc_at (v + 102944) (θ + Real.pi / 2) (R + 45 / 10000000) E (by omega) (by omega) hθ' (by linarith) hE2
+  rw [Real.sin_add_pi_div_two] at hacc
+  exact ⟨s, by unfold cos; rw [hadd]; simp only [bind, Except.bind]; exact hs, hacc⟩
+
+theorem C09_sin_acc (v : Int) (h1 : -411774 ≤ v) (h2 : v ≤ 411774) :
+    ∃ s : Int, (sin v ⇓ s) ∧
+      |(s : ℝ) / 65536 - Real.sin ((v : ℝ) / 65536)| ≤ 4 / 65536 + |Real.arcsin (Real.sin ((v : ℝ) / 65536))| ^ 9 / 362880 := by
+  obtain ⟨s, hs, h⟩ := sin_acc_at v ((v : ℝ) / 65536) 0 ((156 / 100) / 65536) (by omega) (by omega)
+    (by rw [sub_self, abs_zero]) (by norm_num) (by norm_num)
+  exact ⟨s, hs, by linarith⟩
+
+theorem C09_cos_acc (v : Int) (h1 : -411774 ≤ v) (h2 : v ≤ 411774) :
+    ∃ c : Int, (cos v ⇓ c) ∧
+      |(c : ℝ) / 65536 - Real.cos ((v : ℝ) / 65536)| ≤ 4 / 65536 + |Real.arcsin (Real.cos ((v : ℝ) / 65536))| ^ 9 / 362880 := by
+  obtain ⟨c, hc, h⟩ := cos_acc_at v ((v : ℝ) / 65536) 0 ((156 / 100) / 65536) h1 h2
+    (by rw [sub_self, abs_zero]) (by norm_num) (by norm_num)
+  exact ⟨c, hc, by linarith⟩
 
 /-- both results lie in [-1, 1] for every argument below 2^62 -/
 theorem C09_range (v : Int) (h1 : -4611686018427387904 < v) (h2 : v < 4611686018427387904) :
